@@ -191,8 +191,10 @@ func (collection *linkCollectionImpl) GetLinks(tx *bbolt.Tx, id string) []string
 }
 
 func (collection *linkCollectionImpl) IterateLinks(tx *bbolt.Tx, id []byte) ast.SeekableSetCursor {
-	fieldBucket := collection.getFieldBucket(tx, id)
-	if !fieldBucket.HasError() {
+	// this is a read operation, so don't create the links bucket if it doesn't exist yet
+	entityBucket := collection.field.GetStore().GetEntityBucket(tx, id)
+	fieldBucket := entityBucket.GetPath(collection.field.GetPath()...)
+	if fieldBucket != nil && !fieldBucket.HasError() {
 		return fieldBucket.IterateStringList()
 	}
 	return ast.EmptyCursor
